@@ -6,7 +6,7 @@ one final-status record, links refer to existing items, and the constraints mark
 the constraints recorded by the solver API in the same run."""
 import json, os, sys, collections, shutil, importlib.util
 from concurrent.futures import ThreadPoolExecutor
-import vcheck, vbuild, vdriverlib, flatgen, graphlib
+import vcheck, vbuild, vdriverlib, flatgen, graphlib, nlmodel
 
 PID = 'C20'
 WORK = os.path.join(vbuild.BUILD, 'work', 'C20')
@@ -55,7 +55,11 @@ def one(job):
         nl_counts = {'vars': len(m.vars), 'algcons': len(m.acons), 'logcons': len(m.lcons), 'objs': len(m.objs), 'dvars': len(m.dvars)}
         tmap = d.get('types', {})
         for c in d['cons']: c['short'] = tmap.get(c['type'], c['type'])
-        for sig, det in graphlib.validate(recs, d, nl_counts): out.append((sig, det))
+        eqops = sorted(set(o for e in [c[0] for c in m.acons if c[0]] + list(m.lcons) + [o[1] for o in m.objs if o[1]]
+                           for o in nlmodel.ops_of(e)) & {'eq', 'ne', 'numberof', 'alldiff', 'nalldiff', 'count', 'exactly', 'nexactly', 'iff'})
+        for sig, det in graphlib.validate(recs, d, nl_counts):
+            if 'destination of no link record' in sig: sig += ' [equality-type operators in the model: %s]' % (','.join(eqops) or 'none')
+            out.append((sig, det))
     cls.add('%s|mode%d|%s|%s|links=%s' % (accname, mode, label, 'ok' if not probs else 'badjson',
                                           'y' if any('link_index' in r for r in recs) else 'n'))
     shutil.rmtree(wd, ignore_errors=True)
@@ -114,8 +118,8 @@ def main(tier, seed):
     chk.set('rule', 'driver runs with cvt:writegraph over the C19 model set x acceptance configs x cvt:names {0,2} x name alphabets {absent, plain, '
             'quotes, backslashes, TAB/control/UTF-8}; strict JSON parse of every line, completeness of NL and delivered items, exactly one '
             'creation and one final-status record per stored constraint with consistent flags, link references inside item classes, '
-            'final==1 records equal the AddConstraint calls recorded by RecAPI; every NL constraint is the source of at least one link record; the export path holds stale content of an earlier run before every run (it must be replaced); one chain model with 100 consecutive reformulated constraints (> 256 link entries of one link object in a row). A class = (config, names mode, alphabet, parse result, links present).')
-    chk.assumptions += ['the rule "every NL constraint starts a link" goes beyond the letter of the statement (which asks that every item appears and links refer to existing items); it holds on every model and configuration of the set and is what makes a silently truncated link export visible',
+            'final==1 records equal the AddConstraint calls recorded by RecAPI; every NL constraint is the source and every stored constraint the destination of at least one link record; the export path holds stale content of an earlier run before every run (it must be replaced); one chain model with 100 consecutive reformulated constraints (> 256 link entries of one link object in a row). A class = (config, names mode, alphabet, parse result, links present).')
+    chk.assumptions += ['the rules "every NL constraint starts a link / every stored constraint ends one" go beyond the letter of the statement (which asks that every item appears and links refer to existing items); it holds on every model and configuration of the set and is what makes a silently truncated link export visible',
                         'the k-th delivered constraint of a type corresponds to the k-th final==1 record of that type (push order)']
     if nrec < 1000: chk.broken.append('vacuous: almost no graph records parsed')
     shutil.rmtree(WORK, ignore_errors=True)
